@@ -29,7 +29,7 @@ RULE = ('a case = one (operation list, setting) execution compared with the refe
 ASSUMPTIONS = ['tag state is reset in-process between settings (the simulator runs in a thread of the checking process)']
 REQUIRED = ['lists', 'settings', 'setting:synchronous', 'setting:pipelined', 'setting:bundled', 'setting:fragment', 'ops:read', 'ops:write', 'ops:failing', 'ops:attribute', 'ops:attribute-refused-bare-status', 'ops:no-route-path-next-to-default',
             'bundles:seen', 'bundles:multi-member', 'monitor:paths-in-bundle', 'ops:differing-route-paths', 'strings:parsed', 'strings:write-cast', 'strings:range', 'strings:offset',
-            'strings:numeric-path', 'strings:text-values', 'paths:format-parse', 'monitor:model-compare', 'proxy:lists']
+            'strings:numeric-path', 'strings:text-values', 'strings:four-term-numeric-path', 'paths:format-parse', 'monitor:model-compare', 'proxy:lists']
 TIMEOUT = {'quick': 300, 'thorough': 2400}
 SOFT = {'quick': 40, 'thorough': 900}
 
@@ -136,8 +136,38 @@ def gen_spec(rng, failing_ok=True):
 STRING_VALUES = ['abc', 'a,b', 'C:\\plc\\new', '\\\\srv\\share', 'a\\tb', 'say "hi"', ' lead', 'x=1', 'a+b', '(INT)5', '1.5', 'tail\\', "it's", 'a[0-3]*2', 'é', '']
 
 
+def four_term_paths(ctx, rng):
+    """The documented four-term numeric form @class/instance/attribute/element, alone, with a replacing [index] or [a-b], with *count,
+    parsed one after the other in every order: each string denotes its own segments whatever was parsed before it."""
+    from cpppo.server.enip import client
+    c, i, a = rng.choice([(0x22, 1, 2), (0x93, 1, 2), (0x401, 3, 7)])
+    e = rng.randrange(0, 9)
+    base = '@0x%x/%d/%d/%d' % (c, i, a, e)
+    j = e + 1 + rng.randrange(5)
+    forms = [(base, e, None), ('%s[%d]' % (base, j), j, None), (base, e, None), ('%s[%d-%d]' % (base, j, j + 2), j, 3), ('%s*2' % base, e, 2), (base, e, None),
+             ('@0x%x/%d/%d[%d]' % (c, i, a, j), j, None), (base, e, None)]
+    rng.shuffle(forms)
+    forms.append((base, e, None))
+    held = []
+    for text, elm, cnt in forms:
+        op, = list(client.parse_operations([text]))
+        held.append((text, elm, cnt, op))
+        ctx.count('strings:four-term-numeric-path')
+        ctx.case(('4term', text, len(held)))
+    # judged at the end: a parse result, once returned, is the caller's -- later parses must not have changed it either
+    for text, elm, cnt, op in held:
+        want = [{'class': c}, {'instance': i}, {'attribute': a}, {'element': elm}]
+        got = [dict(s_) for s_ in op['path']]
+        if got != want or op.get('elements') != cnt:
+            ctx.violation('operation-string-misparsed', 'parse_operations(%r) (among %r): path %r elements %r, spelled %r elements %r' % (
+                text, [f[0] for f in forms], got, op.get('elements'), want, cnt), {'text': text, 'sequence': [f[0] for f in forms]})
+            return
+
+
 def strings_part(ctx, rng, n):
     from cpppo.server.enip import client, device
+    for _ in range(6):
+        four_term_paths(ctx, rng)
     for k_ in range(n):
         kind, spec = gen_spec(rng)
         if k_ % 8 == 0:
